@@ -29,6 +29,8 @@ type Entry struct {
 type ValsetDef struct {
 	Keys []int    `json:"keys"`
 	Pow  []uint64 `json:"pow"`
+	// Stored: the validator store holds this set's keys and powers from the start
+	Stored bool `json:"stored"`
 }
 
 type HdrDef struct {
@@ -281,6 +283,14 @@ func (w *World) SparseSig(kind string, h uint64, r uint32, target string, vsID s
 	case "otherkey":
 		// a key that is not the one the key id names: the spare key outside every set
 		signerKey = w.nGlobal
+	case "stolen":
+		// the authentic signature of the previous validator of the set (ed25519 is deterministic, so these are the
+		// very bytes of that validator's own vote), filed under this entry's key id
+		sp := signerPos - 1
+		if sp < 1 {
+			sp = n
+		}
+		signerKey = d.Keys[sp-1]
 	case "otherkind":
 		if kind == "prevote" {
 			kk = "precommit"
